@@ -92,6 +92,10 @@ func scenarios(prop string, thorough bool) []*Scenario {
 			r = append(r, &Scenario{Name: fmt.Sprintf("full+txmanager/ready+block-requested/short-reads-%d", chunk), Opt: role,
 				Prefix: append(append([]string{}, ready...), "!request-block1"), Alphabet: a, Depth: 1, oracle: oracleC14})
 		}
+		// long headers messages that the repository accepts (proof-of-work checking off): list sizes
+		// on both sides of the one-byte / three-byte count boundary, in both orders, with other traffic
+		r = append(r, &Scenario{Name: "full+txmanager/ready/long-accepted-headers", Opt: netsim.Options{TxManager: true, Universe: true}, Prefix: ready,
+			Alphabet: []string{"headers[universe-chain-252]", "headers[universe-chain-253]", "headers[universe-chain-300]", "headers[]", "ping", "inv[tx0]", "unknown[1024]"}, Depth: pick(2, 3), oracle: oracleC14})
 		r = append(r, &Scenario{Name: "full/handshake-complete-unverified", Opt: netsim.Options{TxManager: true}, Prefix: []string{"version", "verack"},
 			Alphabet: without(alpha), Depth: pick(2, 3), Extend: []string{"version", "verack"}, ExtendDepth: 13, oracle: oracleC14})
 	}
